@@ -574,7 +574,15 @@ func (a *analyzer) sourceOrder(fd *ast.FuncDecl) []string {
 							if strings.HasPrefix(sel.Sel.Name, "Load") {
 								kind = "ar:"
 							}
-							out = append(out, kind+f)
+							item := kind + f
+							// the value an atomic write publishes, when it is a named constant
+							// (the new value of a Store, Swap or CompareAndSwap is the last argument)
+							if kind == "aw:" && len(x.Args) > 1 {
+								if id, ok := unparen(x.Args[len(x.Args)-1]).(*ast.Ident); ok {
+									item += "=" + id.Name
+								}
+							}
+							out = append(out, item)
 							return false
 						}
 					}
@@ -973,7 +981,13 @@ func writeAccess(repo, out string) error {
 		}
 		fmt.Fprintf(&b, "  (%q, [%s])%s\n", k, strings.Join(qs, ", "), sep)
 	}
-	b.WriteString("]\n\nend GoRes.Generated\n")
+	b.WriteString("]\n\n")
+	stOps, err := stateOpsLean(repo)
+	if err != nil {
+		return err
+	}
+	b.WriteString(stOps)
+	b.WriteString("\nend GoRes.Generated\n")
 	if old, err := os.ReadFile(out); err == nil && string(old) == b.String() {
 		return nil
 	}
